@@ -215,3 +215,62 @@ impl<'a, K, V> IntoIterator for &'a mut HashMap<K, V> {
         self.0.iter_mut()
     }
 }
+
+/// Seeded counterpart of `std::collections::HashSet` (same idea as `HashMap` above).
+pub struct HashSet<T>(std::collections::HashSet<T, SeededState>);
+
+impl<T> HashSet<T> {
+    pub fn new() -> Self {
+        HashSet(std::collections::HashSet::default())
+    }
+}
+
+impl<T> Default for HashSet<T> {
+    fn default() -> Self {
+        HashSet::new()
+    }
+}
+
+impl<T> Deref for HashSet<T> {
+    type Target = std::collections::HashSet<T, SeededState>;
+
+    fn deref(&self) -> &Self::Target {
+        &self.0
+    }
+}
+
+impl<T> DerefMut for HashSet<T> {
+    fn deref_mut(&mut self) -> &mut Self::Target {
+        &mut self.0
+    }
+}
+
+impl<T: Eq + Hash> FromIterator<T> for HashSet<T> {
+    fn from_iter<I: IntoIterator<Item = T>>(iter: I) -> Self {
+        HashSet(std::collections::HashSet::from_iter(iter))
+    }
+}
+
+impl<T: Eq + Hash> Extend<T> for HashSet<T> {
+    fn extend<I: IntoIterator<Item = T>>(&mut self, iter: I) {
+        self.0.extend(iter)
+    }
+}
+
+impl<T> IntoIterator for HashSet<T> {
+    type Item = T;
+    type IntoIter = std::collections::hash_set::IntoIter<T>;
+
+    fn into_iter(self) -> Self::IntoIter {
+        self.0.into_iter()
+    }
+}
+
+impl<'a, T> IntoIterator for &'a HashSet<T> {
+    type Item = &'a T;
+    type IntoIter = std::collections::hash_set::Iter<'a, T>;
+
+    fn into_iter(self) -> Self::IntoIter {
+        self.0.iter()
+    }
+}
